@@ -161,6 +161,23 @@ func MutateMemo(tpl MemoTemplate) []MemoMut {
 				out = append(out, m)
 			}
 		}
+		if st.Kind == jm.Obj {
+			// the other member of a oneof next to the one that is set (FeeInfo.fee_type): which
+			// member ends up in the payload must not vary between parses
+			other := map[string][]string{
+				"basis_points": {"amount", `{"value":"7"}`}, "amount": {"basis_points", `{"value":100}`},
+			}
+			for _, k := range orig.Keys {
+				if o, ok := other[k]; ok {
+					for _, front := range []bool{false, true} {
+						add(st, fmt.Sprintf("oneof-other-member:%s,front=%v", o[0], front), jm.InsertKey(root, st.Path, o[0], jm.RawText(o[1]), front))
+					}
+					add(st, "oneof-other-member-null:"+o[0], jm.InsertKey(root, st.Path, o[0], jm.N(jm.Null), false))
+					camel := map[string]string{"basis_points": "basisPoints", "amount": "amount"}[o[0]]
+					add(st, "oneof-other-member-camel:"+camel, jm.InsertKey(root, st.Path, camel, jm.RawText(o[1]), false))
+				}
+			}
+		}
 		switch st.Kind {
 		case jm.Obj:
 			add(st, "unknown-key", jm.InsertKey(root, st.Path, "zz_unknown", jm.Number("1"), false))
